@@ -8,7 +8,7 @@
    L1-L4 listed there. *)
 From Coq Require Import ZArith List Bool.
 From GoCoap Require Import Base.Bytes Gen.OptionDefs Gen.TcpConsts
-     Codec.Options Codec.Udp Codec.Tcp Codec.Pool Codec.Spec Codec.ProofsOpt Codec.ProofsC01 Codec.ProofsC02.
+     Codec.Options Codec.Udp Codec.Tcp Codec.Pool Codec.Spec Codec.ProofsOpt Codec.ProofsC01 Codec.ProofsC02 Codec.ProofsC02Tcp.
 Import ListNotations.
 Open Scope Z_scope.
 
@@ -79,6 +79,55 @@ Theorem C02_udp_retry_terminates : forall bs cap, bytes_ok bs = true -> 0 <= cap
   pool_decode (pool_fuel bs) udp_decode cap bs <> Fuel.
 Proof. exact udp_retry_terminates. Qed.
 Print Assumptions C02_udp_retry_terminates.
+
+(* Stream header pre-parse (DecodeHeader) = RFC 8323 3.2 reference on every byte string:
+   "need more bytes" exactly when the reference needs more, a format error (token length
+   9-15, or a 4-byte extended length above the implementation limit messageMaxLen) exactly
+   when the reference says invalid, the same four fields otherwise.  The uint32 header
+   arithmetic of the model never wraps (tot < 2^32). *)
+Theorem C02_tcp_header_agrees : forall bs, bytes_ok bs = true ->
+  match ref_tcp_header messageMaxLen bs with
+  | RShort => tcp_decode_header bs = Err EShortRead
+  | RInvalid => exists e, tcp_decode_header bs = Err e /\ (e = ETokenLen \/ e = EInvalidEncoding)
+  | RHdr hl tot code tok =>
+      tcp_decode_header bs = Ok {| h_len := hl; h_mlen := tot; h_code := code; h_tok := tok |}
+      /\ 0 <= hl <= tot /\ hl <= blen bs /\ tot < W32 /\ 0 <= code < 256
+  end.
+Proof. exact tcp_header_agree. Qed.
+Print Assumptions C02_tcp_header_agrees.
+
+(* Stream decoder = reference on every byte string (shorter than 4 GiB: len(data) is
+   cast to uint32 by the code): only the declared frame is parsed, with the option table
+   of the frame's code. *)
+Theorem C02_tcp_agrees_with_reference : forall cap bs, bytes_ok bs = true -> blen bs < W32 ->
+  match ref_tcp messageMaxLen bs with
+  | None => exists e, tcp_decode cap bs = Err e /\ (e = EOptCap -> cap < blen bs)
+  | Some (m, tot) => tcp_decode cap bs = Ok (m, tot) \/ (tcp_decode cap bs = Err EOptCap /\ cap < blen bs)
+  end.
+Proof. exact tcp_agree. Qed.
+Print Assumptions C02_tcp_agrees_with_reference.
+
+Theorem C02_tcp_no_panic : forall cap bs, bytes_ok bs = true ->
+  (tcp_decode_header bs <> Panic /\ tcp_decode_header bs <> Fuel) /\
+  (blen bs < W32 -> tcp_decode cap bs <> Panic /\ tcp_decode cap bs <> Fuel).
+Proof.
+  intros cap bs Hb. split.
+  - destruct (tcp_header_total bs Hb) as [[h T]|[e T]]; rewrite T; split; discriminate.
+  - intros Hl. destruct (tcp_total cap bs Hb Hl) as [[m [n T]]|[e T]]; rewrite T; split; discriminate.
+Qed.
+Print Assumptions C02_tcp_no_panic.
+
+Theorem C02_tcp_retry_terminates : forall bs cap, bytes_ok bs = true -> blen bs < W32 -> 0 <= cap ->
+  pool_decode (pool_fuel bs) tcp_decode cap bs <> Fuel.
+Proof. exact tcp_retry_terminates. Qed.
+Print Assumptions C02_tcp_retry_terminates.
+
+(* Not proved for the stream coder (kept visible): C02_tcp_decode_wf / C02_tcp_canonical,
+     tcp_decode cap bs = Ok (m, n) -> wf_tcp messageMaxLen m = true
+   needs that the canonical re-encoding of the accepted body is not longer than the
+   frame it came from (|spec_body m| <= n < messageMaxLen); the per-field part follows
+   from ref_options_wf as for the datagram coder.  Canonicalisation of stream frames is
+   checked on every accepted case of the correspondence run (pclass class 5). *)
 
 (* No aliasing: UnmarshalWithDecoder hands the decoder a copy, so every view in the result
    points into the message's own buffer (this holds by construction of the model; the tie
